@@ -441,6 +441,17 @@ class Ctx:
             "notes": self.notes,
         }
         cov.update(self.extra)
+        # keep the keys the evidence schema knows well-typed whatever a family put into ctx.extra
+        known = {"evaluations": int, "distinct_nontrivial": int, "rule": str, "samples": list, "states": int,
+                 "transitions": int, "traces_validated_against_impl": int, "obligations": int, "discharged": int,
+                 "checker_cmd": str, "trusted_base": list, "programs": int, "disagreements_checked": int,
+                 "explanation": str, "exhaustive": bool}
+        for k, t in known.items():
+            if k in cov and (not isinstance(cov[k], t) or (t is int and isinstance(cov[k], bool))):
+                cov[k + "_detail"] = cov.pop(k)
+        cov["trusted_base"] = [str(x) for x in cov.get("trusted_base", [])]
+        if not cov.get("samples"):
+            cov["samples"] = ["(no sample recorded)"]
         ev = {"property_id": self.prop, "tier": self.tier, "seed": self.seed, "level": self.level,
               "coverage": cov, "assumptions": self.assumptions, "wall_s": round(wall, 2), "violations": nviol}
         with open(os.path.join(VERIF, "evidence", self.prop + ".json"), "w") as f:
